@@ -310,6 +310,24 @@ local ctx = runtime.callcontext({kill = {cpu = 10000000}}, function()
 end)
 emit("after", ctx.status, keep ~= nil)
 `},
+	{"finaliser-order-after-remark", 1, `
+-- (uses the runtime library: not run by the noquotas build)
+-- finalisers of a context with its own limits run when it ends, in reverse order of
+-- marking; giving a value a __gc metatable again marks it again
+local mt = {__gc = function(o) emit("gc", o.name) end}
+local ctx = runtime.callcontext({kill = {cpu = 10000000}}, function()
+  local x = setmetatable({name = "x"}, mt)
+  local y = setmetatable({name = "y"}, mt)
+  local z = setmetatable({name = "z"}, mt)
+  for i = 1, math.min($N, 20) do setmetatable({name = "n" .. i}, mt) end
+  setmetatable(x, mt)
+  pcall(setmetatable, y, mt)
+  local co = coroutine.wrap(function() setmetatable(z, mt) coroutine.yield() setmetatable(x, {__gc = mt.__gc}) end)
+  co() co()
+  emit("body end")
+end)
+emit("after", ctx.status)
+`},
 	{"varargs-and-returns", 1, `
 local function va(...) return select('#', ...), ... end
 local function many(n) local t = {} for i = 1, n do t[i] = i end return table.unpack(t) end
